@@ -49,6 +49,7 @@ def run(ctx):
         for s, o in bad[:5]:
             ctx.mismatch('DOMAIN(quiet)', s, o, 'block statement expected quiet with final level 0')
         streams.s_csl(ctx)
+        streams.s_split(ctx, [gen.gsplit(rng) for _ in range(ctx.n(4000, 60000))])
         streams.s_split(ctx, dom)
         streams.s_split(ctx, [c['input'] for c in streams.corpus('C17')])
     else:
